@@ -11,7 +11,8 @@ class C14(MemSpec):
     pid = 'C14'
     rule = ('cases = corpus (minimised witnesses of F6, F7) + one case per edge of the breadth-first closure of the Coq model '
             'over 2 array objects, 2 external buffers, element counts {0,3,5,10} and boundary bounds up to SIZE_MAX (state budget '
-            'per tier) + seeded random histories over 4 array objects aimed at the bounds of the current view; non-trivial = at '
+            'per tier) + seeded random histories over 4 array objects aimed at the bounds of the current view; every second case '
+            'with aat / adata is replayed through cstl_array_at_const / cstl_array_data_const (header constapi 1); non-trivial = at '
             'least two completed operations; distinct = distinct (header, operations) text')
     trusted = ['modelled, not verified: the cstl_array functions of src/array.c are transcribed by hand into ArrayViewModel.v on top '
                'of MemModel.v; addresses are (block, byte offset) pairs; pointer arithmetic is modelled on byte offsets']
@@ -20,14 +21,19 @@ class C14(MemSpec):
 
     def closure(self, tier):
         if tier == 'quick':
-            return self.closures([('array', 120)])
-        return self.closures([('array', 1200), ('array3', 300)])
+            cases, st = self.closures([('array', 120)])
+        else:
+            cases, st = self.closures([('array', 1200), ('array3', 300)])
+        kv = memref.const_variants(cases, every=2)
+        st['constapi_replays'] = len(kv)
+        return cases + kv, st
 
     def random_cases(self, tier, seed):
         rnd = random.Random(seed * 7919 + 14)
         n = 500 if tier == 'quick' else 8000
         kinds = ['A', 'A', 'A', 'A']
-        return [memref.gen_case(rnd, 'rnd%d' % i, kinds, [40, 64], rnd.choice([6, 12, 25, 50]), W_ARR) for i in range(n)]
+        cases = [memref.gen_case(rnd, 'rnd%d' % i, kinds, [40, 64], rnd.choice([6, 12, 25, 50]), W_ARR) for i in range(n)]
+        return cases + memref.const_variants(cases, every=2)
 
 
 SPEC = C14()
